@@ -243,7 +243,7 @@ func zzText(name string) string { return zzTextN(name, 2) }
 func zzTextN(name string, n int) string {
 	b := zz.NondetBytes(name, n)
 	for _, c := range b {
-		zz.Assume(zz.ByteIn(c, " a1t"))
+		zz.Assume(zz.ByteIn(c, " a1t08"))
 	}
 	return string(b)
 }
